@@ -587,7 +587,12 @@ func init() {
 				r.harnessError("bad case: %v", err)
 				return
 			}
-			if c.Base == "" || c.Base == "self" {
+			if c.Base == "self" {
+				// the self-origin probe runs at the end of every group: replay the group of this policy / mode
+				vfC03RunGroup(r, MessageSignaturePolicy(c.Policy), c.Anonymous, "ed25519", [][]string{nil})
+				return
+			}
+			if c.Base == "" {
 				vfC03Publishes(r)
 				for _, p := range vfC03Policies() {
 					vfC03RunGroup(r, p, false, "ed25519", [][]string{nil})
